@@ -323,6 +323,103 @@ func runCfg(withLocal bool, c, ca, cb *cfg) (impl, oracle string) {
 	return impl, oracle
 }
 
+// --- aliasing stress ---
+
+func cloneConfig(c *cfg) *cfg {
+	d := *parseConfig(showConfig(c))
+	return &d
+}
+
+func sameLists(a, b []string) bool {
+	if len(a) != len(b) {
+		return false
+	}
+	for i := range a {
+		if a[i] != b[i] {
+			return false
+		}
+	}
+	return true
+}
+
+func concat(a, b []string) []string {
+	out := make([]string, 0, len(a)+len(b))
+	out = append(out, a...)
+	return append(out, b...)
+}
+
+func withSpare(l []string, k int) []string {
+	if k == 0 {
+		return l
+	}
+	out := make([]string, len(l), len(l)+k)
+	copy(out, l)
+	return out
+}
+
+// runAlias merges two higher configurations on top of the same lower one (itself
+// the output of a merge, with spare slice capacity) and checks, without the
+// model, that the results are independent values: the first result still is the
+// in-order concatenation after the second merge, no input changed, and writing
+// into either result's lists changes neither the inputs nor the other result.
+func runAlias(k int, base, mid, h1, h2 *cfg) (impl, oracle string) {
+	fail := func(format string, a ...any) {
+		if oracle == "" {
+			oracle = "class=merge-aliasing " + fmt.Sprintf(format, a...)
+		}
+	}
+	lower := synchronization.MergeConfigurations(base, mid)
+	lower.DefaultIgnores = withSpare(lower.DefaultIgnores, k)
+	lower.Ignores = withSpare(lower.Ignores, k)
+	lowerCopy, h1Copy, h2Copy := cloneConfig(lower), cloneConfig(h1), cloneConfig(h2)
+	r1 := synchronization.MergeConfigurations(lower, h1)
+	r1Copy := cloneConfig(r1)
+	r2 := synchronization.MergeConfigurations(lower, h2)
+	impl = showConfig(lower) + " | " + showConfig(r1) + " | " + showConfig(r2)
+	check := func(stage string) {
+		if !sameLists(r1.Ignores, concat(lowerCopy.Ignores, h1Copy.Ignores)) || !sameLists(r1.DefaultIgnores, concat(lowerCopy.DefaultIgnores, h1Copy.DefaultIgnores)) {
+			fail("%s: first result's ignore lists are %q / %q, not lower ++ higher (%q ++ %q / %q ++ %q)", stage, r1.DefaultIgnores, r1.Ignores,
+				lowerCopy.DefaultIgnores, h1Copy.DefaultIgnores, lowerCopy.Ignores, h1Copy.Ignores)
+		}
+		if !sameLists(r2.Ignores, concat(lowerCopy.Ignores, h2Copy.Ignores)) || !sameLists(r2.DefaultIgnores, concat(lowerCopy.DefaultIgnores, h2Copy.DefaultIgnores)) {
+			fail("%s: second result's ignore lists are %q / %q, not lower ++ higher", stage, r2.DefaultIgnores, r2.Ignores)
+		}
+		if showConfig(lower) != showConfig(lowerCopy) || showConfig(h1) != showConfig(h1Copy) || showConfig(h2) != showConfig(h2Copy) {
+			fail("%s: an input configuration changed", stage)
+		}
+	}
+	check("after both merges")
+	if showConfig(r1) != showConfig(r1Copy) {
+		fail("the first result changed when the second merge ran")
+	}
+	// Writing into (and appending to) the results must stay local to them.
+	scribble := func(l []string, tag string) []string {
+		for i := range l {
+			l[i] = tag
+		}
+		return append(l, tag)
+	}
+	want2 := cloneConfig(r2)
+	r1.Ignores = scribble(r1.Ignores, "#1")
+	r1.DefaultIgnores = scribble(r1.DefaultIgnores, "#1")
+	if showConfig(lower) != showConfig(lowerCopy) || showConfig(h1) != showConfig(h1Copy) || showConfig(r2) != showConfig(want2) {
+		fail("writing into the first result's lists changed an input or the second result")
+	}
+	r2.Ignores = scribble(r2.Ignores, "#2")
+	r2.DefaultIgnores = scribble(r2.DefaultIgnores, "#2")
+	if showConfig(lower) != showConfig(lowerCopy) || showConfig(h2) != showConfig(h2Copy) || showConfig(h1) != showConfig(h1Copy) {
+		fail("writing into the second result's lists changed an input")
+	}
+	for _, l := range [][]string{r1.Ignores, r1.DefaultIgnores} {
+		for _, s := range l {
+			if s != "#1" {
+				fail("writing into the second result's lists changed the first result")
+			}
+		}
+	}
+	return impl, oracle
+}
+
 // --- mode text forms ---
 
 type modeOps struct {
@@ -337,38 +434,88 @@ func mt(b []byte, err error) (string, bool) { return string(b), err == nil }
 
 var modes = []modeOps{
 	{"sync", 4, func(v int32) (string, bool) { return mt(core.SynchronizationMode(v).MarshalText()) },
-		func(s string) (int32, bool) { var m core.SynchronizationMode; err := m.UnmarshalText([]byte(s)); return int32(m), err == nil },
+		func(s string) (int32, bool) {
+			var m core.SynchronizationMode
+			err := m.UnmarshalText([]byte(s))
+			return int32(m), err == nil
+		},
 		func(v int32) bool { return core.SynchronizationMode(v).Supported() }},
 	{"hash", 3, func(v int32) (string, bool) { return mt(hashing.Algorithm(v).MarshalText()) },
-		func(s string) (int32, bool) { var m hashing.Algorithm; err := m.UnmarshalText([]byte(s)); return int32(m), err == nil },
-		func(v int32) bool { t, _ := hashing.Algorithm(v).MarshalText(); return len(t) > 0 && string(t) != "unknown" }},
+		func(s string) (int32, bool) {
+			var m hashing.Algorithm
+			err := m.UnmarshalText([]byte(s))
+			return int32(m), err == nil
+		},
+		func(v int32) bool {
+			t, _ := hashing.Algorithm(v).MarshalText()
+			return len(t) > 0 && string(t) != "unknown"
+		}},
 	{"probe", 2, func(v int32) (string, bool) { return mt(behavior.ProbeMode(v).MarshalText()) },
-		func(s string) (int32, bool) { var m behavior.ProbeMode; err := m.UnmarshalText([]byte(s)); return int32(m), err == nil },
+		func(s string) (int32, bool) {
+			var m behavior.ProbeMode
+			err := m.UnmarshalText([]byte(s))
+			return int32(m), err == nil
+		},
 		func(v int32) bool { return behavior.ProbeMode(v).Supported() }},
 	{"scan", 2, func(v int32) (string, bool) { return mt(synchronization.ScanMode(v).MarshalText()) },
-		func(s string) (int32, bool) { var m synchronization.ScanMode; err := m.UnmarshalText([]byte(s)); return int32(m), err == nil },
+		func(s string) (int32, bool) {
+			var m synchronization.ScanMode
+			err := m.UnmarshalText([]byte(s))
+			return int32(m), err == nil
+		},
 		func(v int32) bool { return synchronization.ScanMode(v).Supported() }},
 	{"stage", 3, func(v int32) (string, bool) { return mt(synchronization.StageMode(v).MarshalText()) },
-		func(s string) (int32, bool) { var m synchronization.StageMode; err := m.UnmarshalText([]byte(s)); return int32(m), err == nil },
+		func(s string) (int32, bool) {
+			var m synchronization.StageMode
+			err := m.UnmarshalText([]byte(s))
+			return int32(m), err == nil
+		},
 		func(v int32) bool { return synchronization.StageMode(v).Supported() }},
 	{"symlink", 3, func(v int32) (string, bool) { return mt(core.SymbolicLinkMode(v).MarshalText()) },
-		func(s string) (int32, bool) { var m core.SymbolicLinkMode; err := m.UnmarshalText([]byte(s)); return int32(m), err == nil },
+		func(s string) (int32, bool) {
+			var m core.SymbolicLinkMode
+			err := m.UnmarshalText([]byte(s))
+			return int32(m), err == nil
+		},
 		func(v int32) bool { return core.SymbolicLinkMode(v).Supported() }},
 	{"watch", 3, func(v int32) (string, bool) { return mt(synchronization.WatchMode(v).MarshalText()) },
-		func(s string) (int32, bool) { var m synchronization.WatchMode; err := m.UnmarshalText([]byte(s)); return int32(m), err == nil },
+		func(s string) (int32, bool) {
+			var m synchronization.WatchMode
+			err := m.UnmarshalText([]byte(s))
+			return int32(m), err == nil
+		},
 		func(v int32) bool { return synchronization.WatchMode(v).Supported() }},
 	{"syntax", 2, func(v int32) (string, bool) { return mt(ignore.Syntax(v).MarshalText()) },
-		func(s string) (int32, bool) { var m ignore.Syntax; err := m.UnmarshalText([]byte(s)); return int32(m), err == nil },
+		func(s string) (int32, bool) {
+			var m ignore.Syntax
+			err := m.UnmarshalText([]byte(s))
+			return int32(m), err == nil
+		},
 		func(v int32) bool { return ignore.Syntax(v).Supported() }},
 	{"vcs", 2, func(v int32) (string, bool) { return mt(ignore.IgnoreVCSMode(v).MarshalJSON()) },
-		func(s string) (int32, bool) { var m ignore.IgnoreVCSMode; err := m.UnmarshalText([]byte(s)); return int32(m), err == nil },
+		func(s string) (int32, bool) {
+			var m ignore.IgnoreVCSMode
+			err := m.UnmarshalText([]byte(s))
+			return int32(m), err == nil
+		},
 		func(v int32) bool { return ignore.IgnoreVCSMode(v).Supported() }},
 	{"perm", 2, func(v int32) (string, bool) { return mt(core.PermissionsMode(v).MarshalText()) },
-		func(s string) (int32, bool) { var m core.PermissionsMode; err := m.UnmarshalText([]byte(s)); return int32(m), err == nil },
+		func(s string) (int32, bool) {
+			var m core.PermissionsMode
+			err := m.UnmarshalText([]byte(s))
+			return int32(m), err == nil
+		},
 		func(v int32) bool { return core.PermissionsMode(v).Supported() }},
 	{"compress", 3, func(v int32) (string, bool) { return mt(compression.Algorithm(v).MarshalText()) },
-		func(s string) (int32, bool) { var m compression.Algorithm; err := m.UnmarshalText([]byte(s)); return int32(m), err == nil },
-		func(v int32) bool { t, _ := compression.Algorithm(v).MarshalText(); return len(t) > 0 && string(t) != "unknown" }},
+		func(s string) (int32, bool) {
+			var m compression.Algorithm
+			err := m.UnmarshalText([]byte(s))
+			return int32(m), err == nil
+		},
+		func(v int32) bool {
+			t, _ := compression.Algorithm(v).MarshalText()
+			return len(t) > 0 && string(t) != "unknown"
+		}},
 }
 
 func modeByName(n string) *modeOps {
@@ -470,6 +617,13 @@ func main() {
 					oracle = o
 					return i
 				})
+			case len(f) == 6 && f[0] == "alias":
+				k, _ := strconv.Atoi(f[1])
+				impl = hx.Try(func() string {
+					i, o := runAlias(k, parseConfig(f[2]), parseConfig(f[3]), parseConfig(f[4]), parseConfig(f[5]))
+					oracle = o
+					return i
+				})
 			case len(f) == 3 && f[0] == "text" && modeByName(f[1]) != nil:
 				v, _ := strconv.Atoi(f[2])
 				impl, oracle = runText(modeByName(f[1]), int32(v))
@@ -558,6 +712,24 @@ func main() {
 				}
 			}
 		}
+		// 4b. Aliasing stress: layered merges on a shared lower configuration whose
+		// ignore slices have spare capacity (all list combinations, then random).
+		for k := 0; k <= 3; k++ {
+			for bi := range ignoreSets {
+				for mi := range ignoreSets {
+					for hi := range ignoreSets {
+						base, mid, h1, h2 := &cfg{}, &cfg{}, &cfg{}, &cfg{}
+						base.Ignores, base.DefaultIgnores = ignoreSets[bi], ignoreSets[(bi+1)%len(ignoreSets)]
+						mid.Ignores, mid.DefaultIgnores = ignoreSets[mi], ignoreSets[(mi+2)%len(ignoreSets)]
+						h1.Ignores, h1.DefaultIgnores = ignoreSets[hi], ignoreSets[(hi+1)%len(ignoreSets)]
+						h2.Ignores, h2.DefaultIgnores = ignoreSets[(hi+mi+1)%len(ignoreSets)], ignoreSets[(hi+3)%len(ignoreSets)]
+						c.Count("gen:alias")
+						c.Count("exhaustive")
+						emitLine(fmt.Sprintf("alias %d %s %s %s %s", k, showConfig(base), showConfig(mid), showConfig(h1), showConfig(h2)))
+					}
+				}
+			}
+		}
 		// 5. Random whole configurations; mostly valid values so that many get past
 		// the per-configuration checks.
 		r := c.R
@@ -604,6 +776,11 @@ func main() {
 		}
 		for i := 0; i < c.Size(15000, 600000); i++ {
 			emit("cfg", randomCfg(false, false), randomCfg(true, false), randomCfg(true, false), "random")
+		}
+		for i := 0; i < c.Size(2000, 60000); i++ {
+			c.Count("gen:alias-random")
+			emitLine(fmt.Sprintf("alias %d %s %s %s %s", r.Intn(4), showConfig(randomCfg(false, false)), showConfig(randomCfg(false, false)),
+				showConfig(randomCfg(false, false)), showConfig(randomCfg(false, false))))
 		}
 		for i := 0; i < c.Size(400, 4000); i++ {
 			emit("cfgl", randomCfg(false, true), randomCfg(true, true), randomCfg(true, true), "random-local")
